@@ -110,6 +110,13 @@ func init() {
 			GenCore(r, k, sc)
 			sc.Arm = "natural"
 			sc.RunForMs = 180000
+			for _, p := range sc.Project.Procs {
+				if p.ExitOnEnd || p.ExitOnSkipped || p.Restart == "exit_on_failure" {
+					// which trigger comes first is judged from the order of events: a stalled
+					// supervisor goroutine (fault F13) would make that order meaningless
+					sc.Strategy.StallPermille = 0
+				}
+			}
 			return sc
 		},
 		Check: func(sc *Scenario, res *RunResult, t *Truth) []Violation { return checkC04(sc, t) },
